@@ -118,6 +118,7 @@ def random_pg(
     allow_isolated=True,
     one_sided_bond_desc=0.05,
     p_invalid=0.15,
+    p_hub=0.08,
 ):
     if allow_empty and rng.random() < 0.02:
         return sem.pg_empty(cls)
@@ -132,6 +133,14 @@ def random_pg(
     if max_deg is None:
         max_deg = rng.choice([3, 4, 4, 4, 5, 6])
     ntot, edges = skeleton(rng, n, max_deg=max_deg, p_ring=rng.choice([0, 0.3, 0.6]), n_comp=n_comp, n_isolated=n_iso)
+    if n >= 1 and rng.random() < p_hub:
+        # a coordination centre: one atom gets 5 or 6 neighbours (new leaves)
+        hub = rng.randrange(n)
+        want = rng.choice([5, 6])
+        have = sum(1 for e in edges if hub in e)
+        for _ in range(max(0, want - have)):
+            edges.add(frozenset((hub, ntot)))
+            ntot += 1
     ids = make_ids(rng, ntot, id_kind)
     pg = sem.pg_empty(cls)
     deg = [0] * ntot
